@@ -6,4 +6,4 @@ From LV Require Import Lsp.
 Extraction Blacklist List String Int.
 Extraction "../ocaml/lsp_model.ml"
   position_to_offset offset_to_position position_to_offset_cs offset_to_position_cs
-  line_starts split_nl step run conformant single_change latest latest_first.
+  line_starts split_nl step run conformant latest.
